@@ -806,3 +806,15 @@ def _m58():
                   'self._add_implicit(dep, directory)',
                   'self.host.setdefault(dep, installify(dep, directory=directory)); '
                   'self.target.setdefault(dep, installify(dep, directory=directory, cross=self.env))')
+
+
+@mutant('compdb_drops_target_options')
+def _m59():
+    from bfg9000.builtins import compile as bc
+    old = bc.compdb_compile
+    _patch_source(bc, 'compdb_compile', "compiler.flags(gopts, mode='global') +\n                               rule.flags(gopts))",
+                  "compiler.flags(gopts, mode='global'))")
+    from bfg9000.backends.compdb import writer as cw
+    for k, v in list(cw._rule_handlers.items()):
+        if v is old:
+            cw._rule_handlers[k] = bc.compdb_compile
